@@ -994,6 +994,38 @@ def run_sim_case(case, ex, pool, pristine=None):
     return out
 
 
+def short_lived_gate_sets(n):
+    """returns (gate sets built, failure | None)"""
+    import gc as _gc
+    from quantum_gates._gates.gates import Gates
+    from quantum_gates._gates.pulse import GaussianPulse
+    shapes = [(0.5, 0.4), (0.5, 0.08), (0.2, 0.25), (0.8, 0.15)]
+    keep, built = [], 0
+    args = (0.9, 0.3, 1e-3, 1e-4, 5e-5)
+    for i in range(n):
+        loc, scale = shapes[i % len(shapes)]
+        p = GaussianPulse(loc=loc, scale=scale)
+        g = Gates(p)
+        np.random.seed(7)
+        with quiet():
+            A = np.array(g.single_qubit_gate(*args))
+        del g, p
+        _gc.collect()
+        p2 = GaussianPulse(loc=loc, scale=scale)
+        g2 = Gates(p2)
+        keep.append((p2, g2))
+        built += 2
+        np.random.seed(7)
+        with quiet():
+            B = np.array(g2.single_qubit_gate(*args))
+        if A.tobytes() != B.tobytes():
+            return built, (f"Gates(GaussianPulse({loc}, {scale})).single_qubit_gate{args} after numpy seed 7: the sample of gate set number {2 * i + 1} of the "
+                           f"process differs from the sample of gate set number {2 * i + 2} on a new pulse of the same shape by "
+                           f"{float(np.abs(A - B).max()):.3e} (earlier gate sets on other pulse shapes had been dropped): a sample depends on other "
+                           f"gate-set objects of the process")
+    return built, None
+
+
 def predicted_draws(ex, calls):
     meth = ex["gates"]["methods"]
     out = []
@@ -1221,6 +1253,15 @@ def main(ctx):
                                f"MrAndersonSimulator({case['set']}, {case['cls']}), {case['n']} qubits, {case['shots']} shot(s), seed {case['seed']}: {res['fail']}"))
     ctx.sample({"part": "C", "class": casesC[0]["cls"], "gate_set": casesC[0]["set"], "ops": casesC[0]["ops"][:8], "shots": casesC[0]["shots"]})
 
+    # ---------------------------------------------------------------- gate sets that come and go
+    # gate sets on Gaussian pulses of different shape are built, sampled once after a seed and DROPPED (their memory is reused by
+    # the next objects); each sample must be the sample of a gate set on a new pulse of the same shape that is kept alive
+    sl = short_lived_gate_sets(60 if ctx.thorough else 24)
+    ctx.count(sl[0])
+    cov["short_lived_gate_sets"] = sl[0]
+    if sl[1]:
+        violations.append(({"kind": "gate-set-lifetime"}, {"level": "lifetime", "failure": sl[1]}, sl[1]))
+
     cov["pristine_process_questions"] = pristine.n
     pristine.close()
 
@@ -1373,6 +1414,10 @@ def replay(ctx, path):
     rp = json.load(open(path))["replay"]
     level = rp.get("level")
     pool = NanPool()
+    if level == "lifetime":
+        n, bad = short_lived_gate_sets(60)
+        print("gate sets that come and go:", bad or "oracle holds")
+        return 1 if bad else 0
     if level not in ("integrator", "gate", "simulator"):
         print("replay names a broken obligation, no input to re-run:", json.dumps(rp)[:600])
         return 1
